@@ -3,8 +3,8 @@ import GaeaVerif.Model.LenEnc
   C13 — model of the path that turns a backend text-protocol row into the
   binary-protocol row sent to a prepared-statement client:
 
-    mysql/result.go    RowData.ParseText, BuildBinaryResultset
-    mysql/encoding.go  AppendBinaryValue, splitTextDate
+    mysql/result.go    RowData.ParseText, BuildBinaryResultset, integerFitsColumn
+    mysql/encoding.go  AppendBinaryValue, splitTextDate, splitTextDatetime
     mysql/field.go     stringToMysqlTime, mysqlTimeToBinaryResult
     util/hack          Abs
 
@@ -98,6 +98,9 @@ inductive Err where
   | valueType          -- "AppendBinaryValue: unsupported type %T"
   | shortData          -- "AppendBinaryValue: insufficient data length …"
   | fieldType          -- "AppendBinaryValue: unsupported field type %d"
+  | intRange           -- "row %d column %d: %v is out of range for field type %d"
+  | fieldDef           -- FieldData.Parse: "… failed", ErrMalformPacket (Model/ColDef.lean)
+  | defWrite           -- "internal error: packing of column definition used …"
   | panic              -- a Go run-time panic
   deriving Repr, DecidableEq
 
@@ -410,6 +413,32 @@ def splitTextDate (s : Bytes) : Option (Nat × Nat × Nat) :=
     else none
   | _ => none
 
+/-- `splitTextDatetime`: the numbers of a `YYYY-MM-DD HH:MM:SS[.f{1,6}]` text —
+    year, month, day (not validated), hour, minute, second (a time of day),
+    microseconds. -/
+def splitTextDatetime (s : Bytes) : Option (Nat × Nat × Nat × Nat × Nat × Nat × Nat) :=
+  match s with
+  | y0 :: y1 :: y2 :: y3 :: s1 :: m0 :: m1 :: s2 :: d0 :: d1 :: sp :: h0 :: h1 :: c1 :: i0 :: i1 :: c2 :: e0 :: e1 :: tail =>
+    if sp != 32 || c1 != 58 || c2 != 58 then none
+    else
+      match splitTextDate [y0, y1, y2, y3, s1, m0, m1, s2, d0, d1] with
+      | none => none
+      | some (y, mo, d) =>
+        if !(isDigit h0 && isDigit h1 && isDigit i0 && isDigit i1 && isDigit e0 && isDigit e1) then none
+        else
+          let h := digVal h0 * 10 + digVal h1
+          let mi := digVal i0 * 10 + digVal i1
+          let sec := digVal e0 * 10 + digVal e1
+          if h > 23 ∨ mi > 59 ∨ sec > 59 then none
+          else
+            match tail with
+            | [] => some (y, mo, d, h, mi, sec, 0)
+            | dot :: frac =>
+              if dot != 46 || frac.length < 1 || frac.length > 6 then none
+              else if !frac.all isDigit then none
+              else some (y, mo, d, h, mi, sec, decVal frac * 10 ^ (6 - frac.length))
+  | _ => none
+
 /-- "0000-00-00 00:00:00" -/
 def zeroDatetimeText : Bytes :=
   [48, 48, 48, 48, 45, 48, 48, 45, 48, 48, 32, 48, 48, 58, 48, 48, 58, 48, 48]
@@ -418,11 +447,19 @@ def zeroDatetimeText : Bytes :=
 def datetimeBytes (v : Bytes) : Res Bytes :=
   if v = zeroDatetimeText then .ok [0]
   else
-    match parseDateTime v with
-    | none => .err .datetime
+    -- a parse finer than a microsecond counts as a failed parse
+    match (parseDateTime v).filter (fun r => r.2.2.2.2.2.2 % 1000 == 0) with
     | some (y, mo, d, h, mi, s, ns) =>
       .ok ([11] ++ leBytes y 2 ++ [UInt8.ofNat mo, UInt8.ofNat d, UInt8.ofNat h, UInt8.ofNat mi, UInt8.ofNat s]
             ++ leBytes (ns / 1000) 4)
+    | none =>
+      match splitTextDatetime v with
+      | some (y, mo, d, h, mi, s, us) =>
+        if y = 0 ∧ mo = 0 ∧ d = 0 ∧ h = 0 ∧ mi = 0 ∧ s = 0 ∧ us = 0 then .ok [0]
+        else
+          .ok ([11] ++ leBytes y 2 ++ [UInt8.ofNat mo, UInt8.ofNat d, UInt8.ofNat h, UInt8.ofNat mi, UInt8.ofNat s]
+                ++ leBytes us 4)
+      | none => .err .datetime
 
 /-- `case TypeDate, TypeNewDate:` of the constructor phase (string value). -/
 def dateBytes (v : Bytes) : Bytes :=
@@ -464,7 +501,7 @@ def binaryValueBytes (ops : FloatOps) (fieldType : Nat) (value : GoVal) : Res By
 def isLenEncFieldType (ty : Nat) : Bool :=
   ty == TypeNewDecimal || ty == TypeJSON || ty == TypeString || ty == TypeVarString || ty == TypeVarchar
     || ty == TypeBit || ty == TypeTinyBlob || ty == TypeMediumBlob || ty == TypeLongBlob || ty == TypeBlob
-    || ty == TypeEnum || ty == TypeSet
+    || ty == TypeEnum || ty == TypeSet || ty == TypeGeometry || ty == TypeDecimal
 
 def isRawFieldType (ty : Nat) : Bool :=
   ty == TypeDate || ty == TypeDatetime || ty == TypeDuration || ty == TypeTimestamp || ty == TypeNewDate
@@ -538,6 +575,25 @@ def parseTextLoop (ops : FloatOps) (p : Bytes) : List Field → Int → Res (Lis
 def parseText (ops : FloatOps) (p : Bytes) (f : List Field) : Res (List GoVal) :=
   parseTextLoop ops p f 0
 
+/-- `integerFitsColumn(field, value)`: an integer value must be a value of the
+    integer column it is sent in (width of the binary encoding, signedness);
+    other values and other columns are not checked. -/
+def integerFitsColumn (f : Field) (v : GoVal) : Bool :=
+  let bits : Nat :=
+    if f.typ = TypeTiny then 8
+    else if f.typ = TypeShort ∨ f.typ = TypeYear then 16
+    else if f.typ = TypeLong ∨ f.typ = TypeInt24 then 32
+    else if f.typ = TypeLonglong then 64
+    else 0
+  if bits = 0 then true
+  else
+    match v with
+    | .i64 sv =>
+      if sv < 0 then !f.isUnsigned && decide (sv ≥ -(2 ^ (bits - 1) : Int))
+      else if f.isUnsigned then decide (sv < 2 ^ bits) else decide (sv < 2 ^ (bits - 1))
+    | .u64 uv => if f.isUnsigned then decide (uv < 2 ^ bits) else decide (uv < 2 ^ (bits - 1))
+    | _ => true
+
 /-- `nullBitMap[bytePos] |= 1 << bitPos` (index panic made explicit). -/
 def setNullBit (bm : List Nat) (j : Nat) : Option (List Nat) :=
   let bytePos := (j + 2) / 8
@@ -554,6 +610,7 @@ def buildRowLoop (ops : FloatOps) : List Field → List GoVal → Nat → Bytes 
       match setNullBit bm j with
       | none => .err .panic
       | some bm' => buildRowLoop ops fs vs (j + 1) payload bm'
+    else if !integerFitsColumn f v then .err .intRange
     else
       match appendBinaryValue ops f.typ v with
       | .err e => .err e
